@@ -202,6 +202,24 @@ def run(tier="quick", seed=0, repo="/repo"):
             ok, detail = False, f"{type(e).__name__}: {str(e)[:160]}"
         t.case(f"merge-expr:{tname}<-{sname}", ("merge-expr", tname), ok, function="fakesnow.transforms_merge._create_merge_candidates", case={"target": tname, "source": sname},
                expected="target [(1,'t1',10),(2,'s2<t2',20),(3,'t3+s3',23),(4,'S4',18)] counts [(1, 2)]", actual=detail)
+    # source columns written without the table qualifier (their names are the source's own), literals in VALUES, delete first
+    cur = conn.cursor()
+    try:
+        cur.execute("create or replace table t1 (k int, val varchar, status varchar)")
+        cur.execute("create or replace table t2 (k2 int, newval varchar, newstatus varchar, m int)")
+        cur.execute("insert into t1 values (1, 'a', 's1'), (2, 'b', 's2'), (3, 'c', 's3')")
+        cur.execute("insert into t2 values (1, 'A', 'S1', 1), (2, 'B', 'S2', 0), (4, 'D', 'S4', 0)")
+        cur.execute("merge into t1 using t2 on t1.k = t2.k2 when matched and t2.m = 0 then delete when matched then update set val = newval, status = newstatus "
+                    "when not matched then insert (k, val, status) values (k2, newval, 'new')")
+        counts = cur.fetchall()
+        cur.execute("select k, val, status from t1 order by k")
+        got = cur.fetchall()
+        want = [(1, "A", "S1"), (3, "c", "s3"), (4, "D", "new")]
+        ok, detail = got == want and [tuple(int(x) for x in r) for r in counts] == [(1, 1, 1)], f"target {got} counts {counts}"
+    except Exception as e:  # noqa: BLE001
+        ok, detail = False, f"{type(e).__name__}: {str(e)[:160]}"
+    t.case("merge-expr:unqualified source columns", ("merge-expr", "unqualified"), ok, function="fakesnow.transforms_merge._create_merge_candidates", case={},
+           expected="target [(1,'A','S1'),(3,'c','s3'),(4,'D','new')] counts [(1, 1, 1)]", actual=detail)
     t.case("helper:merge_candidates visible after MERGE", ("helper",), not helper_visible(conn), function="fakesnow.transforms_merge.merge", case={}, expected="no helper object visible in the session", actual="select * from merge_candidates succeeds" if helper_visible(conn) else "ok")
     # all or nothing: a MERGE whose later clause fails must leave the target as it was
     cur = conn.cursor()
